@@ -662,7 +662,7 @@ Section Proofs.
   (* ---------------------------------------------------------------- every step preserves Inv *)
   Lemma Inv_ixok s : Inv s -> co_ready (sy_coord s) = true -> P (committed s) (co_index (sy_coord s)).
   Proof.
-    intros [idxC [Hobs [Hs _]]] Hr. destruct (Hs Hr) as [_ [-> _]]. apply observe_P; exact Hobs.
+    intros [idxC [Hobs [Hs _]]] Hr. destruct (Hs Hr) as [_ [_ [-> _]]]. apply observe_P; exact Hobs.
   Qed.
 
   Lemma step_Inv s o : Inv s -> Inv (fst (step s o)).
@@ -686,7 +686,8 @@ Section Proofs.
       replace (MAX_SETTLEMENT_BYTES <? lenN (st_bytes cand)) with false by (symmetry; apply N.ltb_ge; lia).
       rewrite Hdig, N.eqb_refl. cbn [negb]. rewrite Hq, Hg, Hc, Her, Hv, Hs. reflexivity.
     - destruct (recover (sy_store s)) as [co|e] eqn:Er; cbn [fst].
-      + unfold ExtAct.recover in Er. destruct (sto_tail (sy_store s)) eqn:Et; [|discriminate].
+      + unfold ExtAct.recover in Er. destruct (sto_torn (sy_store s)) eqn:Etn; [discriminate|].
+        destruct (sto_tail (sy_store s)) eqn:Et; [|discriminate].
         destruct (ExtAct.observe H D EH (sto_committed (sy_store s))) as [idx|] eqn:Eo; [|discriminate].
         inversion Er; subst co. exists idx. split; [exact Eo|].
         split; cbn [sy_coord sy_store co_ready co_index co_next_lsn]; intros X; [auto|discriminate].
@@ -696,8 +697,8 @@ Section Proofs.
         * left. apply H1; reflexivity.
         * apply H2; reflexivity.
     - destruct HI as [idxC [Hobs [H1 H2]]]. exists idxC. split; [exact Hobs|].
-      split; cbn [sy_coord sy_store truncate sto_tail sto_base committed sto_committed]; intros X.
-      + destruct (H1 X) as [_ [A B]]. auto.
+      split; cbn [sy_coord sy_store truncate sto_tail sto_torn sto_base committed sto_committed]; intros X.
+      + destruct (H1 X) as [_ [_ [A B]]]. auto.
       + apply H2; exact X.
   Qed.
 
@@ -726,8 +727,8 @@ Section Proofs.
 
   Lemma Inv_recover s : Inv s -> co_ready (sy_coord s) = true -> recover (sy_store s) = Ok (sy_coord s).
   Proof.
-    intros [idxC [Hobs [H1 _]]] Hr. destruct (H1 Hr) as [Ht [Hi Hl]].
-    unfold ExtAct.recover. rewrite Ht. unfold committed in Hobs. rewrite Hobs.
+    intros [idxC [Hobs [H1 _]]] Hr. destruct (H1 Hr) as [Ht [Htn [Hi Hl]]].
+    unfold ExtAct.recover. rewrite Htn, Ht. unfold committed in Hobs. rewrite Hobs.
     destruct (sy_coord s) as [ci cn cr]; cbn in *. subst. reflexivity.
   Qed.
 
@@ -743,11 +744,11 @@ Section Proofs.
                    observe (l ++ [t]) = Ok (co_index co)).
   Proof.
     intros HI. pose proof HI as [idxC [Hobs [H1 H2]]].
-    unfold ExtAct.recover, truncate; cbn [sto_tail sto_committed sto_base].
+    unfold ExtAct.recover, truncate; cbn [sto_tail sto_torn sto_committed sto_base].
     unfold committed in Hobs. rewrite Hobs. eexists; split; [reflexivity|]. split; [reflexivity|]. split.
-    - intros Hr. destruct (H1 Hr) as [Ht [Hi Hl]]. destruct (sy_coord s) as [ci cn cr]; cbn in *. subst. reflexivity.
+    - intros Hr. destruct (H1 Hr) as [Ht [_ [Hi Hl]]]. destruct (sy_coord s) as [ci cn cr]; cbn in *. subst. reflexivity.
     - cbn [co_index]. destruct (co_ready (sy_coord s)) eqn:Er.
-      + left. destruct (H1 eq_refl) as [_ [Hi _]]. auto.
+      + left. destruct (H1 eq_refl) as [_ [_ [Hi _]]]. auto.
       + destruct (H2 eq_refl) as [Hi|[l [t [Hc Ho]]]]; [left; auto|].
         right. exists l, t. split; [exact Hc|]. split; [exact Ho|]. unfold committed in Hc. rewrite <- Hc. exact Hobs.
   Qed.
@@ -1257,7 +1258,7 @@ Section Proofs.
     assert (HJ : forall l idx, observe l = Ok idx -> J idx).
     { intros l idx Ho. eapply (observe_from_PJ l HD [] empty_index idx P_empty (J_empty HEH)). exact Ho. }
     destruct (co_ready (sy_coord s)) eqn:Er.
-    - destruct (H1 eq_refl) as [_ [-> _]]. eapply HJ; eauto.
+    - destruct (H1 eq_refl) as [_ [_ [-> _]]]. eapply HJ; eauto.
     - destruct (H2 eq_refl) as [->|[l [t [_ Ho]]]]; eapply HJ; eauto.
   Qed.
 
